@@ -3,7 +3,8 @@
 // Harness for C22: drives the real internal/lsp/diff package.
 //
 //	D <hexa> <hexb> [<ignored: diags for the model>]
-//	    -> G<diags> E<edits> A<apply> U<hex unified, 3 context lines> C<contract>
+//	    -> G<diags> E<edits> A<apply> U<hex unified, 3 context lines> C<contract> H<0|1|?>
+//	       H      = 1 iff the two-sided search ran into its depth limit (partial results stitched by lcs.fix)
 //	       diags  = x:y:len,...  the common subsequence the LCS search returned (what DiffRunes/DiffBytes used)
 //	       edits  = start:end:hexnew,... from Strings(a,b); Bytes(a,b) must return the same
 //	       apply  = ok:<hex> | err:oob | err:overlap        Apply(a, edits)
@@ -125,8 +126,22 @@ func opD(a, b []byte) string {
 		ra, rb = []rune(string(a)), []rune(string(b))
 		_, diags = lcs.VerifC22ComputeRunes(ra, rb)
 	}
+	hit, hd := false, []lcs.VerifC22Diag(nil)
+	if isASCII(a) && isASCII(b) {
+		hit, hd = lcs.VerifC22HitLimitBytes(a, b)
+	} else {
+		hit, hd = lcs.VerifC22HitLimitRunes(ra, rb)
+	}
+	hs := "H0"
+	if hit {
+		hs = "H1"
+	}
+	if fmt.Sprint(hd) != fmt.Sprint(diags) {
+		hs = "H?" // the instrumented run is not the run compute makes
+	}
 	if string(a) == string(b) {
 		diags = nil // Strings returns before searching
+		hs = "H0"
 	}
 	es := diff.Strings(string(a), string(b))
 	eb := diff.Bytes(a, b)
@@ -145,7 +160,7 @@ func opD(a, b []byte) string {
 	if string(a) != string(b) {
 		c = contractRunes(diags, ra, rb)
 	}
-	return "G" + gs + " E" + editsStr(es) + " A" + applyStr(string(a), es) + " U" + unifiedStr(string(a), es, 3) + " C" + c
+	return "G" + gs + " E" + editsStr(es) + " A" + applyStr(string(a), es) + " U" + unifiedStr(string(a), es, 3) + " C" + c + " " + hs
 }
 
 func opA(src []byte, es []diff.Edit, ctx int) string {
